@@ -48,8 +48,15 @@ def _dispatch(prop, t):
             from . import reflect
             extra = reflect.check_kinds
         if prop == "C01":
-            from . import suite_traces
-            extra = suite_traces.run
+            from . import suite_traces, verdicts
+
+            def extra(prop, tier, sc, rep):
+                a = suite_traces.run(prop, tier, sc, rep)
+                b = verdicts.recovered_failure_probes(prop, tier, sc, rep)
+                return tuple(x + y for x, y in zip(a[:4], b[:4]))
+        if prop == "C03":
+            from . import verdicts
+            extra = verdicts.recovered_failure_probes
         return check_expr.check(prop, t, fams, check_expr.RULES[prop], check_expr.ASSUME, extra=extra)
     if prop == "C13":
         from . import check_pipelines
@@ -90,6 +97,10 @@ def _replay(path):
             print("replay: pickling %s fails: %s" % (doc["name"], e))
             print("VIOLATION property=C20 replay=%s" % doc.get("_path"))
             return 1
+    if kind == "probe":
+        print("replay: re-run `bin/check %s` (hand-written probe %s): %s" % (doc.get("property"), doc.get("name"), doc.get("detail")))
+        print("VIOLATION property=%s replay=%s" % (doc.get("property"), doc.get("_path")))
+        return 1
     if kind == "pipeline":
         from . import check_pipelines
         return check_pipelines.replay_file(doc)
